@@ -432,10 +432,14 @@ func (g *gen) runWorld(kind string, n int, limits []int, aroundLimits []int) {
 					if !errd && !capped && join(cat) == join(full) {
 						continue
 					}
+					// the F-C09-1 pattern: a negative-UnixNano token is ignored, i.e. the concatenation is page 1 repeated
 					negTok := false
-					for _, t := range toks {
-						if strings.HasPrefix(t, "pn:-") {
-							negTok = true
+					if capped && len(toks) > 0 && strings.HasPrefix(toks[0], "pn:-") && len(cat) >= 2*limit {
+						negTok = true
+						for k := limit; k < len(cat); k++ {
+							if cat[k] != cat[k%limit] {
+								negTok = false
+							}
 						}
 					}
 					sigf := "paging-mismatch"
@@ -798,6 +802,9 @@ func (g *gen) tokenStream() {
 	g.do(fmt.Sprintf("ar m all -3 %s", hk.Hex([]byte(ref2))))
 	// malformed ops
 	for _, l := range []string{"q", "q c all", "q x all 1 -", "q c z 1 -", "q c all one -", "q c all 1 zz", "q c all 01 -", "q c all +1 -", "q c all 1 - -",
+		"cc", "cc 0 fx1 5", "cc 99 fx1 1322443956000000000 none", "cc 0 FX 1322443956000000000 none", "cc 00 fx1 1322443956000000000 none",
+		"cc 0 fx1 0 none", "cc 0 fx1 1700000000000000000 none", "cc 0 fx1 1322443956000000000 -62135596800000000000", "cc 0 fx1 1322443956000000000 x",
+		"file", "file nosuchfile", "file fx1 fx2", "q c q 1 -", "q c p 1 -", "q c pzz 1 -", "q c yy 1 -",
 		"ar c all 1", "ar c all 1 zz", "ar c all 1 " + hk.Hex([]byte("nope")), "pn", "pn k1 00 none - -", "pn K none - - -", "frob 1",
 		"pn k1 " + hk.Hex([]byte(ref)) + " none a -", "pn k1 " + hk.Hex([]byte(ref)) + " 12x - 5", "pn k1 " + hk.Hex([]byte(ref)) + " none ba 5,6", "pn k1 " + hk.Hex([]byte(ref)) + " none - 5,,6",
 		"pn k1 " + hk.Hex([]byte(ref)) + " none - 05", "pn k1 " + hk.Hex([]byte(ref)) + " none - -0", "pn k1 " + hk.Hex([]byte(ref)) + " none - 999999999999999999999999"} {
@@ -817,7 +824,7 @@ func mix64(z uint64) uint64 {
 // Run is the generator + oracle of C09.
 func Run(r *hk.Run) {
 	g := &gen{r: r, ex: nil}
-	r.Res.Rule = "one case = one world (real index+corpus) of n planned permanodes whose dateCreated / claim dates are drawn from a small pool of instants (kinds: one, modern, subsec, pre1970, epoch, edge64in, mixed; and outside int64 nanoseconds: edge64out, far); per world, sort (created/lastmod) and constraint (all/tag a/tag b): the limit-free query is the oracle list, every limit is followed page by page, every permanode (and one foreign ref) is used as Around pivot; the same Around pivots and limits on the sorts with an unsorted candidate source (BlobRefAsc always, CreatedAsc in worlds with pairwise distinct creation times). distinct = distinct (kind of query, sort, constraint, limit, tie/sign shape of the ordered list[, pivot position]); non-trivial = the full list is longer than the limit (at least two pages / a truncated window)"
+	r.Res.Rule = "one case = one world (real index+corpus) of n planned permanodes whose dateCreated / claim dates are drawn from a small pool of instants (kinds: one, modern, subsec, pre1970, epoch, edge64in, mixed; and outside int64 nanoseconds: edge64out, far); per world, sort (created/lastmod) and constraint (all/tag a/tag b): the limit-free query is the oracle list, every limit is followed page by page, every permanode (and one foreign ref) is used as Around pivot; constraints: Permanode{}, tag=a, tag=b, CamliType:permanode, and(tag a, tag b), camliNodeType=foo, and(camliNodeType=foo, tag a), and(Permanode{}, BlobRefPrefix one-digit / full ref) – every branch of pickCandidateSource an only-permanode constraint can reach; about half of the permanodes get a camliContent file carrying a time, whose schema blob reaches the index before the first query or LATE (after the claim and after a full round of queries), followed by another round; then permanodes are added and a last round runs; the same Around pivots and limits on the sorts with an unsorted candidate source (BlobRefAsc always, CreatedAsc in worlds with pairwise distinct creation times). distinct = distinct (kind of query, sort, constraint, limit, tie/sign shape of the ordered list[, pivot position]); non-trivial = the full list is longer than the limit (at least two pages / a truncated window)"
 	// hk.NewRand(seed) makes consecutive seeds offsets (by one draw) of the same stream, and a generator
 	// with data-dependent draw counts re-synchronises them: decorrelate the seeds first
 	r.R = hk.NewRand(mix64(r.Res.Seed))
